@@ -21,16 +21,23 @@ META = {
             "say format 3 (C04_legacy_becomes_v3, C04_output_is_v3). On every run dump(load(x)) is compared with "
             "dump(load(save(load(x)))) for all inputs, and for format-3 inputs the model's load / save / load (or its "
             "refusal: duplicate layer name / directory, reserved name, glif file used twice) is compared with the "
-            "implementation's.",
+            "implementation's.  The `_real` / `_all_files` theorems instantiate the parts with the real glif reader, the "
+            "real font-info reader and tree-level readers of all seven plist files; where a real reader is not closed "
+            "(lib, kerning, layerinfo: non-finite reals, colours beyond three decimals, -0.0) closedness is asked of the "
+            "input tree only (C04_fixed_point_at_tree, C04_fixed_point_real_all_files).  On every run each plist file of "
+            "every format-3 input norad loaded is read by the model's file reader and compared with what norad loaded.",
     "note": "Format 1/2 conversion (C14, C15) is abstract in the model; the legacy inputs are covered by the oracle only. "
             "That every written glif says format 2 is a fact of the glif encoder (C02); it is observed on every output.",
 }
-COQ_TARGETS = ["Props/C04.vo", "Run/C04.vo"]
+COQ_TARGETS = ["Props/C04.vo", "Run/C04.vo", "Run/FontFiles.vo"]
 PROPS_FILES = ["C04"]
 TRUSTED = [
     "model Model/FontRT.v hand-written from src/font.rs, src/layer.rs, src/fontinfo.rs; tied by the correspondence run "
     "(load of the input, saved tree, load of the saved tree) on every format-3 input",
-    "laws sig_ok and sig_closed of the per-part codecs: hypotheses, instances toy_ok / toy_closed",
+    "laws sig_ok and sig_closed of the per-part codecs: hypotheses, instances toy_ok / toy_closed; proved for the real "
+    "instance all_files except closedness of the lib / kerning / layerinfo readers (hypothesis files_in_domain on the input)",
+    "models Model/FontRealPlist.v, Model/FontRealFiles.v (plist file readers); tied by the reader-direction file-codec "
+    "correspondence (lib/fontfiles_corr.py, Run/FontFiles.v)",
     "lib/ufoio.py (independent writer for the generated inputs, equal() for the comparison)",
     "Coq 8.16.1 kernel and vm_compute; no axioms; no extraction",
 ]
@@ -437,6 +444,8 @@ def run(ctx, known, built):
     stats = collections.Counter()
     class_hits = collections.Counter()
     corr = []
+    fcorr = []
+    import fontfiles_corr as ffc
     for name, kind, info in cases:
         cd = os.path.join(cdir, name)
         stats["inputs"] += 1
@@ -534,6 +543,13 @@ def run(ctx, known, built):
                     tr = fc.read_tree(os.path.join(cd, "r.ufo"))
                     corr.append((name, term, fc.e_l([fc.e_n(0), ef, fc.e_tree(tr),
                                                      fc.e_ok(fc.e_font(fc.font_obs(_load(os.path.join(cd, "second.json")))))])))
+                # the plist files of the input, read by the tree-level file codecs: what norad loaded
+                try:
+                    for rel, e in ffc.checks_loaded(os.path.join(cd, "in.ufo"), first):
+                        fcorr.append((name + "/" + rel, e))
+                except Exception as e:
+                    ctx.disagreements.append({"what": "cannot build the file-codec case", "input": name, "kind": kind,
+                                              "info": info, "error": repr(e)})
         except Exception:
             stats["not_modelled_inputs"] += 1
     ctx.note("oracle done")
@@ -553,6 +569,17 @@ def run(ctx, known, built):
                                       "model_value": fc.short(mv, 3000), "implementation_value": corr[i][2][:3000]})
         ctx.obligation("correspondence:C04 resave (%d cases)" % len(corr), not bad and len(corr) > 0,
                        "%d of %d cases differ" % (len(bad), len(corr)))
+        codes = ffc.eval_codes(ctx, "files", [e for _, e in fcorr])
+        fbad = [(i, c) for i, c in enumerate(codes) if c != 0]
+        nd += len(fbad)
+        for i, c in fbad[:10]:
+            nm = fcorr[i][0].split("/")[0]
+            ctx.disagreements.append({"what": "file codec model and implementation differ on an input file: " +
+                                      (ffc.CODES.get(c, str(c)) if isinstance(c, int) else "evaluation failed"),
+                                      "file": fcorr[i][0], "kind": info_of[nm][0], "info": info_of[nm][1], "seed": ctx.seed,
+                                      "coq_check": c, "expression": fcorr[i][1][:3000]})
+        ctx.obligation("correspondence:C04 plist file readers (%d input files)" % len(fcorr), not fbad and len(fcorr) > 0,
+                       "%d of %d files differ" % (len(fbad), len(fcorr)))
     ctx.note("correspondence done")
     for x in ctx.disagreements[:3]:
         ctx.note("disagreement: " + json.dumps(x, ensure_ascii=False, default=str)[:2500])
@@ -564,7 +591,7 @@ def run(ctx, known, built):
         "exhaustive": False,
         "traces_validated_against_impl": len(corr),
         "input_distribution": dict(stats), "class_hits": dict(class_hits),
-        "correspondence_cases": len(corr), "correspondence_disagreements": nd,
+        "correspondence_cases": len(corr), "file_codec_cases": len(fcorr), "correspondence_disagreements": nd,
     })
     ctx.samples += [{"input": n, "kind": k} for n, k, _ in cases[:3]]
     ctx.violations.sort(key=lambda v: len(json.dumps(v.get("tree", ""))))
